@@ -114,9 +114,10 @@ def configs(tier):
     th = tier == "thorough"
     cfgs = []
 
-    def add(name, optsl, templates, ases=None, recas=(1,), vals=(3,), res=RES1, maxinst=1, maxrec=1, maxscr=1, budget=None):
+    def add(name, optsl, templates, ases=None, recas=(1,), vals=(3,), res=RES1, maxinst=1, maxrec=1, maxscr=1, budget=None,
+            scopes=()):
         cfgs.append(dict(name=name, opts=optsl, templates=templates, ases=ases or [[]], recas=list(recas), vals=list(vals),
-                         res=res, maxinst=maxinst, maxrec=maxrec, maxscr=maxscr, budget=budget))
+                         res=res, maxinst=maxinst, maxrec=maxrec, maxscr=maxscr, budget=budget, scopes=list(scopes)))
 
     # ---- names: token sequences x units x kinds x options
     alpha = [w("foo"), TOT, u("seconds"), sep("_"), sep(".")]
@@ -176,6 +177,12 @@ def configs(tier):
     templ = [inst(1, [w("foo")], "counter", scope="sA"), inst(2, [w("bar")], "gauge", scope="sB"),
              inst(3, [w("baz")], "hist", scope="sA")]
     add("infos", [opts(s, **o) for s in SCHEMES for o in iopts], templ, res=RES3, maxinst=2, maxrec=2, maxscr=1)
+    # ---- scopes: a scope is (name, version, schema URL) but its labels carry name and version only
+    sa2 = {"id": "sA2", "name": "sA", "version": "vsA", "url": "https://example.com/schema/2"}
+    templ = [inst(1, [w("foo")], "counter", scope="sA"), inst(2, [w("bar")], "gauge", scope="sA2"),
+             inst(3, [w("foo")], "counter", scope="sA2"), inst(4, [w("baz")], "hist", scope="sB")]
+    add("scopes", [opts(s, **o) for s in SCHEMES for o in (dict(), dict(noScope=True))], templ, vals=(1,),
+        maxinst=3 if th else 2, maxrec=3 if th else 2, maxscr=2, scopes=[sa2])
     # ---- values: what is exposed equals what the SDK aggregated, per kind
     vkinds = ["counter", "updown", "gauge", "hist", "exphist", "fcounter", "ocounter", "ogauge", "fhist", "oupdown"]
     if th:
@@ -274,7 +281,7 @@ def run(ctx):
     with open(replay_trace, "w") as tf:
         for c in configs(ctx.tier):
             dfn = {"OPTS": tla(TSet(c["opts"])), "TEMPLATES": tla(TSet(c["templates"])), "ASES": tla(c["ases"]),
-                   "RECAS": tla(TSet(c["recas"])), "VALS": tla(TSet(c["vals"])), "RES": tla(c["res"]),
+                   "RECAS": tla(TSet(c["recas"])), "VALS": tla(TSet(c["vals"])), "RES": tla(c["res"]), "SCOPES": tla(c["scopes"]),
                    "MAXINST": c["maxinst"], "MAXREC": c["maxrec"], "MAXSCR": c["maxscr"]}
             r = ctx.tlc(S, "MC_PromExport", "MC_PromExport.cfg", defines=dfn, want_edges=True, name=c["name"], timeout=3000,
                         coverage=(th and c["name"] == "conflicts"))
@@ -289,7 +296,7 @@ def run(ctx):
             with open(sel, "w") as f:
                 f.write("\n".join(scen) + "\n")
             cf = os.path.join(ctx.work, "consts-%s.json" % c["name"])
-            json.dump({"res": c["res"], "ases": c["ases"]}, open(cf, "w"))
+            json.dump({"res": c["res"], "ases": c["ases"], "scopes": c["scopes"]}, open(cf, "w"))
             nscen = 0
             for sch in SCHEMES:
                 if not any(o["scheme"] == sch for o in c["opts"]):
